@@ -1345,6 +1345,12 @@ impl<'a, R: FileManager> FrontendCtx<'a, R> {
         }
 
         let inferred = self.extract_ts_type_lit_members(&typ.body.body, file.clone());
+        // the heritage clause is in the scope of the type parameters too: `interface B<T> extends A<T>`
+        let extended = if typ.extends.is_empty() {
+            None
+        } else {
+            Some(self.extract_interface_extends(&typ.extends, file.clone()))
+        };
 
         for _ in type_params {
             self.type_application_stack.pop();
@@ -1352,16 +1358,16 @@ impl<'a, R: FileManager> FrontendCtx<'a, R> {
 
         let r = inferred;
 
-        let runtype = if typ.extends.is_empty() {
-            r
-        } else {
-            let ext = self.extract_interface_extends(&typ.extends, file.clone())?;
+        let runtype = if let Some(ext) = extended {
+            let ext = ext?;
             let merged = Runtype::all_of(ext.into_iter().chain(std::iter::once(r?)).collect());
             let res = self.extract_object_from_runtype(&merged, &anchor);
             match res {
                 Ok(vs) => Ok(Runtype::object(vs.into_iter().collect())),
                 Err(_) => Ok(merged),
             }
+        } else {
+            r
         }?;
 
         Ok(self.with_jsdoc(&file, typ.span, runtype))
